@@ -62,7 +62,12 @@ def plan(tier, seed):
             for amp in ((0.0, 0.15) if quick else (0.0, 0.05, 0.15)):
                 cases.append(dict(key=f"solid/{lab}/{mem}/{mat}/amp={amp}", kind="solid", mesh=mk, member=mem, fk=fk, mat=mat, amp=amp, seed=seed, tier=tier, cost=8 if "27" in lab or "20" in lab or "10" in lab else 2))
     for (lab, mk, mem, fk) in MIXED_FIELDS:
-        for mat in ("ThreeFieldVariation", "NearlyIncompressible"):
+        for mat in ("ThreeFieldVariation", "NearlyIncompressible", "user-full-blocks"):
+            # (full non-symmetric block lists: 3D hexahedra only -- on plane-strain / axisymmetric mixed containers and with
+            #  dual fields of more than one shape function per cell the pinned integral form raises a shape error before any
+            #  value exists; observation in DESIGN.md, not judged)
+            if mat == "user-full-blocks" and lab != "mixed/hexahedron":
+                continue
             for k, (p, J) in enumerate([(0.0, 1.0), (0.3, 1.1), (-0.3, 0.9)]):
                 cases.append(dict(key=f"{lab}/{mem}/{mat}/pJ={p},{J}", kind="mixed", mesh=mk, member=mem, fk=fk, mat=mat, p=p, J=J, amp=0.1, seed=seed, tier=tier, cost=6))
     for fk, mk in (("3d", "hexahedron"), ("ps", "quad"), ("axi", "quad"), ("ps", "quad8")):
@@ -219,6 +224,37 @@ def material(name, region, ms=1.0):
     else:
         raise ValueError(name)
     return um, sv
+
+
+class FullBlocksUPJ:
+    """P = mu F + a p dJ/dF + c Jb F,  g = b (J - 1) + e F:F - p / k + d Jb,  h = m p + n (Jb - 1) + r tr F   (Jb: third field)"""
+
+    def __init__(self):
+        self.mu, self.a, self.c, self.b, self.e, self.k, self.d, self.m, self.n, self.r = 1.0, 0.7, 0.15, 1.3, 0.2, 5.0, 0.4, -0.6, 2.0, 0.25
+
+    def gradient(self, x):
+        F, p, Jb, sv = x[0], x[1], x[2], x[-1]
+        Fm = np.moveaxis(F, (0, 1), (-2, -1))
+        J = np.linalg.det(Fm)
+        dJdF = np.moveaxis(J[..., None, None] * np.linalg.inv(Fm).transpose(0, 1, 3, 2), (-2, -1), (0, 1))
+        P = self.mu * F + self.a * p[0] * dJdF + self.c * Jb[0] * F
+        g = self.b * (J - 1) + self.e * (F * F).sum((0, 1)) - p[0] / self.k + self.d * Jb[0]
+        h = self.m * p[0] + self.n * (Jb[0] - 1) + self.r * (F[0, 0] + F[1, 1] + F[2, 2])
+        return [P, g[None], h[None], sv]
+
+    def hessian(self, x):
+        F, p, Jb = x[0], x[1], x[2]
+        Fm = np.moveaxis(F, (0, 1), (-2, -1))
+        J = np.linalg.det(Fm)
+        iFT = np.moveaxis(np.linalg.inv(Fm).transpose(0, 1, 3, 2), (-2, -1), (0, 1))
+        dJdF = J * iFT
+        d2J = J * (np.einsum("ij...,kl...->ijkl...", iFT, iFT) - np.einsum("il...,kj...->ijkl...", iFT, iFT))
+        I4 = np.einsum("ik,jl->ijkl", np.eye(3), np.eye(3))[..., None, None]
+        one = np.ones((1, 1) + F.shape[-2:])
+        I2 = np.eye(3)[..., None, None] * np.ones(F.shape[-2:])
+        return [(self.mu + self.c * Jb[0]) * I4 + self.a * p[0] * d2J, self.a * dJdF, self.c * F,
+                self.b * dJdF + 2 * self.e * F, -one / self.k, self.d * one,
+                self.r * I2, self.m * one, self.n * one]
 
 
 class Settled:
@@ -402,6 +438,12 @@ def run(case):
     if kind == "mixed":
         mesh, region, field = make_field(case["mesh"], case["member"], case["fk"], seed, mixed=True)
         hm = set_state(field, mesh, case["amp"], seed, case["p"], case["J"])
+        if case["mat"] == "user-full-blocks":
+            # a user material WITHOUT potential that hands over the FULL row-major list of the nine (u, p, J) blocks
+            # [dP/dF, dP/dp, dP/dJ, dg/dF, dg/dp, dg/dJ, dh/dF, dh/dp, dh/dJ]: no two off-diagonal blocks are mirror images
+            body = fem.SolidBody(FullBlocksUPJ(), field)
+            fd_check(c, "K", [body], field, 2e-5 * hm, symmetric=False)
+            return c.result(dict(case=case["key"], unknowns=int(values_of(field).size), fieldsizes=[int(s) for s in field.fieldsizes]))
         base = fem.NeoHooke(mu=1.3, bulk=7.0) if case["mat"] == "ThreeFieldVariation" else fem.NeoHooke(mu=1.3)
         um = fem.ThreeFieldVariation(base) if case["mat"] == "ThreeFieldVariation" else fem.NearlyIncompressible(base, bulk=7.0)
         body = fem.SolidBody(um, field)
